@@ -33,7 +33,7 @@ def rebench_log(points, crit=None):
     for v in points:
         for (c, cv, cu) in (crit or []):
             out.append("B: %s: %s%s" % (c, cv, cu))
-        out.append("B: iterations=1 runtime: %dus" % int(v * 1000))
+        out.append("B: iterations=1 runtime: %dus" % int(round(v * 1000)))
     return "\n".join(out) + "\n"
 
 
@@ -159,7 +159,8 @@ def run_session(raw, script, data_file, argv=(), scheduler="batch", build_script
                     failed=t._failed_execution_count if t else 0,
                     fail_immediately=t._fail_immediately if t else False,
                     completed=r.completed_invocations, samples=r.get_number_of_data_points(),
-                    is_failed=r.is_failed, missing=r.executable_missing, mean=r.get_mean_of_totals())
+                    is_failed=r.is_failed, missing=r.executable_missing, mean=r.get_mean_of_totals(),
+                    stats=r.statistics)
         except KeyboardInterrupt:
             ses.exit = 2
             ses.result = "exc:KeyboardInterrupt"
